@@ -1,6 +1,15 @@
 from . import rules_c04, rules_geom, inputs
 
 
+def self_controls(prog, facts):
+    from . import perturb
+    from spec import geometry as G
+
+    def rule(c, p2):
+        rules_c04.check_terminal(c, p2, inputs.make_interp(p2, fuel=8000000))
+    return perturb.run_controls([('h1 removed from silver goal',
+                                  lambda f: perturb.perturb_const(f, 'P2_OBJECTIVE_MASK', G.SILVER_GOAL & ~(1 << 63)), rule, 'C04.3')], facts)
+
 def run(ctx, prog, facts, tier):
     I = inputs.make_interp(prog, fuel=8000000)
     rules_geom.check_constants(ctx, prog, which=['TOP_ROW_MASK', 'BOTTOM_ROW_MASK', 'P1_OBJECTIVE_MASK', 'P2_OBJECTIVE_MASK'],
